@@ -599,6 +599,17 @@ func c01Views(c *wk.Ctx) {
 				}
 				mut = "seed-bytes"
 			}
+			if (mode == 1 || mode == 3) && strings.HasPrefix(vt.name, "ICMP6") && vt.name != "ICMP6Echo" && len(in) >= vt.min && r.Intn(3) == 0 {
+				// one more option behind the message, correctly framed (type, length in units of 8 bytes, that many bytes) but
+				// of a length its type does not have: half an address behind the last RDNSS server, a link-layer address
+				// option of three units, a prefix option of one... Framing is all a receiver may rely on (RFC 4861 4.6)
+				ot := byte([]int{1, 2, 3, 5, 24, 25, 31, r.Intn(256)}[r.Intn(8)])
+				units := 1 + r.Intn(5)
+				opt := append([]byte{ot, byte(units)}, gen.RandBytes(r, units*8-2)...)
+				in = append(in, opt...)
+				mut += "+framed-option-of-odd-size"
+				c.Obs("ndp_views_with_a_framed_option_of_unusual_size", 1)
+			}
 			spare := make([]byte, 48)
 			for k := range spare {
 				spare[k] = 0xff
